@@ -77,9 +77,11 @@ bool exec_case(const uint8_t *d, size_t n, FailInfo &fi) {
     vf_ledger_on = 0;
     bool pass = true, stopped = false;
     int sig = 0;
+    san_sync();
     try {
         dirty_stack();
         sig = guarded([&] { run_case(s, c); }, g_cpu);
+        if (sig == 0) c.check_san("the end of the case");          // a report nobody polled still belongs to this case
     } catch (CaseFail &f) {
         pass = false; fi.sig = f.sig; fi.msg = f.msg; fi.cls = cls_name(f.cls);
     } catch (CaseStop &st) {
